@@ -65,3 +65,74 @@ impl actix::Handler<VerifDumpConfig> for crate::config::core::ConfigActor {
         )
     }
 }
+
+/// dump of the naming actor's internal bookkeeping
+#[derive(actix::Message)]
+#[rtype(result = "String")]
+pub struct VerifDumpNaming;
+
+impl actix::Handler<VerifDumpNaming> for crate::naming::core::NamingActor {
+    type Result = String;
+
+    fn handle(&mut self, _msg: VerifDumpNaming, _ctx: &mut Self::Context) -> Self::Result {
+        let mut services: Vec<String> = self
+            .service_map
+            .iter()
+            .map(|(k, s)| {
+                let mut perpetual: Vec<String> = s
+                    .perpetual_host_set
+                    .iter()
+                    .map(|h| format!("{}:{}", h.ip, h.port))
+                    .collect();
+                perpetual.sort();
+                format!(
+                    "{}/{}/{}:size={}:healthy={}:n={}:perp={}:hto={}:uto={}",
+                    k.namespace_id,
+                    k.group_name,
+                    k.service_name,
+                    s.instance_size,
+                    s.healthy_instance_size,
+                    s.instances.len(),
+                    perpetual.join("+"),
+                    s.get_healthy_timeout_set_item_size(),
+                    s.get_unhealthy_timeout_set_item_size()
+                )
+            })
+            .collect();
+        services.sort();
+        let mut clients: Vec<String> = self
+            .client_instance_set
+            .iter()
+            .map(|(c, set)| {
+                let mut ks: Vec<String> = set
+                    .iter()
+                    .map(|k| {
+                        format!(
+                            "{}/{}/{}@{}:{}",
+                            k.namespace_id, k.group_name, k.service_name, k.ip, k.port
+                        )
+                    })
+                    .collect();
+                ks.sort();
+                format!("{}={}", c, ks.join("+"))
+            })
+            .collect();
+        clients.sort();
+        let mut listed = vec![];
+        for (ns, idx) in &self.namespace_index.namespace_group {
+            for (group, set) in &idx.group_service {
+                for service in set {
+                    listed.push(format!("{}/{}/{}", ns, group, service));
+                }
+            }
+        }
+        listed.sort();
+        format!(
+            "services={} clients={} listed={} nlisted={}",
+            services.join(","),
+            clients.join(","),
+            listed.join(","),
+            self.namespace_index.service_size
+        )
+    }
+}
